@@ -12,6 +12,11 @@ open CimbaModel.Generated CimbaModel.Generated.DistQ CimbaModel.Rng.Zig
 /-- the raw generator returns 64-bit words (`uint64_t cmb_random_sfc64(void)`) -/
 def Raw64 (raw : Nat → Nat) : Prop := ∀ i, raw i < 18446744073709551616
 
+/-- prefix sums of a probability vector: `psum pa j = pa 0 + … + pa (j-1)` -/
+def psum (pa : Nat → Rat) : Nat → Rat
+  | 0 => 0
+  | j + 1 => psum pa j + pa j
+
 /-- what is assumed of `sqrt` (a hypothesis of the triangular bound, never an axiom) -/
 structure SqrtLike (f : Rat → Rat) : Prop where
   nonneg : ∀ y, 0 ≤ y → 0 ≤ f y
